@@ -277,6 +277,10 @@ pub struct HistoryCase {
     pub edits_b: Vec<BoxEdit>,
 }
 
+pub fn apply_edits(b: &UB, edits: &[BoxEdit]) -> (Universal2DBox, UB) {
+    apply(b, edits)
+}
+
 fn apply(b: &UB, edits: &[BoxEdit]) -> (Universal2DBox, UB) {
     let mut cur = *b;
     let mut l = b.lib();
@@ -380,11 +384,11 @@ pub fn run(env: &Env, rep: &Report) {
     rep.assume("reference geometry kernel (oracle/geom.rs, f64, local coordinates) is correct; self-checked for symmetry on every case");
     rep.assume("tolerances: intersection 1e-4 of the smaller area, IoU 2e-4; touching configurations are three-valued (either answer accepted inside the band)");
     let w = workers();
-    let n = env.tier.pick(240_000, 6_000_000);
+    let n = env.tier.pick(2_400_000, 40_000_000);
     par_generated(rep, "pair", box_pair, n, w, check_pair);
-    let n = env.tier.pick(60_000, 1_500_000);
+    let n = env.tier.pick(600_000, 10_000_000);
     par_generated(rep, "rigid", rigid_case, n, w, check_rigid);
-    par_generated(rep, "edited-boxes", history_case, env.tier.pick(100_000, 2_000_000), w, check_history);
+    par_generated(rep, "edited-boxes", history_case, env.tier.pick(600_000, 10_000_000), w, check_history);
 }
 
 pub fn replay(sub: &str, case: Value) -> Option<CaseResult> {
